@@ -494,6 +494,9 @@ func c16Views(c *Ctx, sx *symx.Ctx) {
 		}
 		// the counting map update keyed by the element's Query
 		isCount := func(in ssa.Instruction) bool {
+			if st, isSt := in.(*ssa.Store); isSt {
+				return c16PointerTally(st)
+			}
 			mu, ok := in.(*ssa.MapUpdate)
 			if !ok {
 				return false
@@ -694,6 +697,9 @@ func c16Views(c *Ctx, sx *symx.Ctx) {
 			}
 			k, ok := ssau.ConstInt(bo.Y)
 			return ok && k == off
+		}
+		if idx == nil && c16RecentBackward(c, sx, fn, fk) {
+			return
 		}
 		if !r.Check(idx != nil, "O-5", fk+"#newest-first-walk", c.P.Pos(fn.Pos()), "index runs from len(Entries)-1 downwards by one", "no loop index of the form i := len(Entries)-1; ...; i-- found: recent queries are not walked newest first") {
 			return
@@ -1477,4 +1483,202 @@ func c16UniqueBuilder(c *Ctx) *ssa.Function {
 		}
 	})
 	return out
+}
+
+// c16RecentBackward: the library iterator form of the newest-first walk,
+//
+//	for _, entry := range slices.Backward(sh.Entries) { ... }
+//
+// whose body is a yield function: it appends entry.Query only when not yet
+// seen, and stops the iteration (returns false) only when len(queries) has
+// reached the limit. Emits the obligations of the walk and reports whether
+// this form is present.
+func c16RecentBackward(c *Ctx, sx *symx.Ctx, fn *ssa.Function, fk string) bool {
+	r := c.R
+	var body *ssa.Function
+	ssau.ForEachInstr(fn, false, func(in ssa.Instruction) {
+		call, ok := in.(*ssa.Call)
+		if !ok || body != nil || call.Common().IsInvoke() {
+			return
+		}
+		it, ok := call.Common().Value.(*ssa.Call)
+		if !ok || !strings.HasPrefix(ssau.CallName(it), "slices.Backward") || len(it.Common().Args) != 1 {
+			return
+		}
+		if _, ok := histFieldLoad(it.Common().Args[0], "Entries"); !ok {
+			return
+		}
+		if mc, ok := call.Common().Args[0].(*ssa.MakeClosure); ok {
+			body, _ = mc.Fn.(*ssa.Function)
+		}
+	})
+	if body == nil || len(body.Params) != 2 {
+		return false
+	}
+	r.OK("O-5", fk+"#newest-first-walk", c.P.Pos(body.Pos()), "ranges over slices.Backward(Entries): from the last entry down by one")
+	f := sx.Of(body)
+	cd := ssau.ControlDeps(body)
+	entry := body.Params[1]
+	isQuery := func(v ssa.Value) bool {
+		base, ok := ssau.IsFieldLoad(v, histPkg+".SearchEntry", "Query")
+		if !ok {
+			if fl, isF := v.(*ssa.Field); isF && ssau.FieldName(fl) == "Query" && fl.X == ssa.Value(entry) {
+				return true
+			}
+			return false
+		}
+		return base == ssa.Value(entry) || paramCell(base, entry)
+	}
+	nApp := 0
+	ssau.ForEachInstr(body, false, func(in ssa.Instruction) {
+		call, ok := in.(*ssa.Call)
+		if !ok || ssau.CallName(call) != "builtin.append" {
+			return
+		}
+		nApp++
+		key := fmt.Sprintf("%s#append-%d", fk, nApp)
+		val := appendedSingle(call)
+		if val == nil || !isQuery(val) {
+			r.Bad("O-5", key, c.P.Pos(call.Pos()), "the appended value is not the Query of the entry being visited: "+f.Plain(val))
+			return
+		}
+		guarded := absentGuarded(cd, call.Block(), isQuery)
+		r.Check(guarded, "O-5", key, c.P.Pos(call.Pos()), "appends the entry's Query only when not yet seen", "a query is appended without the `seen` test: recent queries are no longer distinct")
+	})
+	r.Floor("O-5", "appends in GetRecentQueries", nApp, 1)
+	// stops: return false only under len(queries) >= limit
+	isLimit := func(v ssa.Value) bool {
+		u, ok := v.(*ssa.UnOp)
+		if !ok {
+			return false
+		}
+		fv, ok := u.X.(*ssa.FreeVar)
+		if !ok {
+			return false
+		}
+		cell := ssau.FreeVarCell(fv)
+		if cell == nil {
+			return false
+		}
+		// the limit parameter's variable (which a default may overwrite)
+		for _, ref := range *cell.Referrers() {
+			if st, ok := ref.(*ssa.Store); ok && st.Addr == ssa.Value(cell) && st.Val == ssa.Value(fn.Params[1]) {
+				return true
+			}
+		}
+		return false
+	}
+	nExit := 0
+	for _, ret := range ssau.ReturnsOf(body) {
+		k, isC := ssau.ResultValue(ret, 0).(*ssa.Const)
+		if isC && k.Value != nil && k.Value.String() == "true" {
+			continue
+		}
+		nExit++
+		key := fmt.Sprintf("%s#walk-exit-%d", fk, nExit)
+		good := false
+		for _, d := range ssau.TransitiveControlDeps(cd, ret.Block()) {
+			op, x, y, ok := ssau.CondOf(d.If().Cond)
+			if !ok {
+				continue
+			}
+			if !d.Then {
+				op = ssau.Negate(op)
+			}
+			if lc, isLen := y.(*ssa.Call); isLen && ssau.CallName(lc) == "builtin.len" {
+				x, y, op = y, x, ssau.Flip(op)
+			}
+			lc, isLen := x.(*ssa.Call)
+			if !isLen || ssau.CallName(lc) != "builtin.len" || op != token.GEQ || !isLimit(y) {
+				continue
+			}
+			if sl, ok := lc.Common().Args[0].Type().Underlying().(*types.Slice); ok {
+				if b, ok := sl.Elem().Underlying().(*types.Basic); ok && b.Kind() == types.String {
+					good = true
+				}
+			}
+		}
+		r.Check(good, "O-5", key, c.P.Pos(ret.Pos()), "the walk stops only when `limit` distinct queries were collected (or the log is exhausted)", "the walk over Entries can stop for another reason: fewer than `limit` distinct recent queries are returned although older entries hold more")
+	}
+	r.Floor("O-5", "exits of the recent-queries walk", nExit, 1)
+	return true
+}
+
+// c16PointerTally: a table of one record pointer per query,
+//
+//	t, known := m[e.Query]; if !known { t = &T{...}; m[e.Query] = t }; t.N++
+//
+// st is the t.N++ store: an integer field of the record reached through the
+// pointer looked up under the entry's Query (or just inserted under it),
+// incremented by one.
+func c16PointerTally(st *ssa.Store) bool {
+	fa, ok := st.Addr.(*ssa.FieldAddr)
+	if !ok {
+		return false
+	}
+	if bt, ok := fa.Type().Underlying().(*types.Pointer).Elem().Underlying().(*types.Basic); !ok || bt.Info()&types.IsInteger == 0 {
+		return false
+	}
+	bo, ok := st.Val.(*ssa.BinOp)
+	if !ok || bo.Op != token.ADD {
+		return false
+	}
+	if one, isOne := ssau.ConstInt(bo.Y); !isOne || one != 1 {
+		return false
+	}
+	old, ok := bo.X.(*ssa.UnOp)
+	if !ok {
+		return false
+	}
+	if ofa, ok := old.X.(*ssa.FieldAddr); !ok || ofa.X != fa.X || ofa.Field != fa.Field {
+		return false
+	}
+	isQueryKey := func(v ssa.Value) bool {
+		u, ok := v.(*ssa.UnOp)
+		if !ok {
+			return false
+		}
+		kfa, ok := u.X.(*ssa.FieldAddr)
+		return ok && ssau.FieldName(kfa) == "Query"
+	}
+	var theMap ssa.Value
+	fromTable := func(v ssa.Value) bool {
+		switch x := v.(type) {
+		case *ssa.Extract:
+			lk, ok := x.Tuple.(*ssa.Lookup)
+			if !ok || x.Index != 0 || !isQueryKey(lk.Index) {
+				return false
+			}
+			if theMap != nil && theMap != lk.X {
+				return false
+			}
+			theMap = lk.X
+			return true
+		case *ssa.Lookup:
+			if x.CommaOk || !isQueryKey(x.Index) {
+				return false
+			}
+			theMap = x.X
+			return true
+		case *ssa.Alloc:
+			// a new record, inserted under the entry's Query
+			for _, ref := range *x.Referrers() {
+				if mu, ok := ref.(*ssa.MapUpdate); ok && mu.Value == ssa.Value(x) && isQueryKey(mu.Key) {
+					return true
+				}
+			}
+		}
+		return false
+	}
+	switch p := fa.X.(type) {
+	case *ssa.Phi:
+		for _, e := range p.Edges {
+			if !fromTable(e) {
+				return false
+			}
+		}
+		return len(p.Edges) > 0 && theMap != nil
+	default:
+		return fromTable(p) && theMap != nil
+	}
 }
